@@ -51,7 +51,8 @@ def fam_first_write_dies():
 
 
 def families(tier):
-    return [corpus.make_family(s, [asserts.consumer_iff_allocations, asserts.consumer_attributes, asserts.no_5xx])
+    return [corpus.make_family(s, [asserts.consumer_iff_allocations, asserts.consumer_attributes, asserts.no_5xx,
+                                    asserts.recreatable])
             for s in corpus.shapes(tier)] + [fam_first_write_dies()]
 
 
